@@ -252,6 +252,18 @@ Proof.
 Qed.
 Print Assumptions refused_reingest_deletes_artifact_refuted.
 
+(* REFUTED without the invariant (the stale row of K-C10-stale-trash-row seen by the removal clause itself): after a trash and a
+   removeRuns(unstore=False) the trash row has no records; a purge naming the id returns Ok, the dataset is `gone` as far as every
+   interface reports, but dataset_location_trash keeps the row -- and so after every later emptyTrash.  Replayed: corpus 12. *)
+Theorem orphan_trash_row_survives_purge_refuted : exists h d,
+  hist_safe init h = false /\ step (run_hist h) (Prune [d] true true true []) = (run_hist h, Ok) /\
+  In d (trash (run_hist h)) /\ has_rec (run_hist h) d = false /\ ~ In d (loc (run_hist h)) /\ exec (run_hist h) EmptyTrash = run_hist h.
+Proof.
+  exists [RegColl 5 Run; Put 5 5 4; Trash1 5; RemoveRuns [5] false], 5.
+  split; [vm_compute; reflexivity | split; [vm_compute; reflexivity | split; [vm_compute; left; reflexivity | split; [vm_compute; reflexivity | split; [vm_compute; intros [] | vm_compute; reflexivity]]]]].
+Qed.
+Print Assumptions orphan_trash_row_survives_purge_refuted.
+
 (* FUEL ADEQUACY.  `connected ch a x`: x is a or below a in the chain definitions (a walk of any length).  With more fuel than there
    are chain definitions -- the model's cycle check uses 1 + their number, the correspondence check 2 + their number -- the two
    fuelled searches compute exactly connectivity; no assumption on the definitions (cyclic ones included). *)
